@@ -107,9 +107,19 @@ impl SlotBlockData {
         debug_assert_eq!(shred.payload().header.slot, self.slot);
         let block_data = self
             .repaired
-            .entry(hash)
+            .entry(hash.clone())
             .or_insert_with(|| BlockData::new(self.slot));
-        block_data.add_shred(shred, shredder)
+        let res = block_data.add_shred(shred, shredder);
+
+        // a repaired block must hash to the identifier it was requested under
+        if let Ok(Some(BlockstoreEvent::Block { block_info, .. })) = &res
+            && block_info.hash != hash
+        {
+            warn!("repaired block does not match the requested block hash, discarding it");
+            self.repaired.remove(&hash);
+            return Err(AddShredError::InvalidShred);
+        }
+        res
     }
 
     /// Ingests a slice that the local node produced itself (as the leader).
